@@ -9,15 +9,15 @@ HERE = os.path.dirname(os.path.dirname(os.path.abspath(__file__)))
 
 # id -> (engine, category, technique, level text, level note, design ref)
 T = {
- "C01": ("wmm", "model_checking", "stateful DFS over interleavings x read-from choices (view-based C++11 RA semantics) of the real BoundedSPSCQueueImpl",
+ "C01": ("wmm", "model_checking", "stateful DFS to closure over interleavings x read-from choices (view-based C++11 release/acquire/relaxed semantics) of the real BoundedSPSCQueueImpl",
          "Every interleaving and every admissible atomic-load value of a producer/consumer pair on the real queue template, for a grid of capacities, publish thresholds, wrap presets and record-size sequences; happens-before race detection on payload bytes.",
-         "Shim std::atomic substituted by macro in the harness TU only; view-based semantics without promises (sound here: no relaxed cross-thread loads feeding stores); bounds as reported in evidence.", "4/C01"),
+         "Shim std::atomic substituted by macro in the harness TU only; view-based semantics without promises (complete here: no relaxed cross-thread load feeds a store); plain private fields are covered by a free-running ThreadSanitizer guard run of the same bodies; capacities 8..64.", "4/C01"),
  "C02": ("wmm", "model_checking", "stateful DFS over interleavings x read-from choices of the real UnboundedSPSCQueue incl. grow/shrink/free",
          "Same explorer over the real unbounded queue with node allocation, switching and freeing tracked by an allocation monitor.",
-         "As C01; node memory is quarantined by the harness allocator so that accesses to retired nodes are detected instead of crashing.", "4/C02"),
+         "As C01; node memory and buffers freed by the code under test are quarantined until the execution ends so that accesses to retired nodes are detected instead of crashing; every store is checked to be ordered after the previous writer (exactness of the history-based state key).", "4/C02"),
  "C03": ("opx", "model_checking", "preemption-bounded exhaustive schedule enumeration of real frontend threads + ManualBackendWorker under a baton scheduler",
          "All schedules (up to the reported preemption bound) of small multi-thread logging scripts against the real backend with tiny queues/buffers and every soft/hard limit in the grid; exactly-once and per-thread order checked at recording sinks.",
-         "Frontend calls are atomic steps; backend preemptible at the guarded yield points; sequentially consistent interleavings.", "4/C03"),
+         "Frontend calls are atomic steps; backend preemptible at the guarded yield points QUILL_VERIF_YIELD(1..5) and poll boundaries; sequentially consistent interleavings; coverage statement = all schedules with at most k preemptions (k and the number of alternatives beyond it are in the evidence).", "4/C03"),
  "C04": ("seqx", "exploration", "bounded exhaustive enumeration of argument type tuples x value alphabets against call-site formatting",
          "Every single/pair of argument types from the menu with every value of its alphabet is logged through the real frontend/backend and compared with fmtquill::format at the call site; originals destroyed before the backend runs.",
          "Type menu and value alphabets are finite; unordered containers compared as multisets; null C string normalised to empty.", "4/C04"),
@@ -54,13 +54,13 @@ T = {
  "C15": ("seqx", "model_checking", "explicit-state BFS over timestamp-gap sequences x frequency/zone grid on the real RotatingFileSink",
          "All non-decreasing timestamp sequences from the gap alphabet; no file may straddle a configured rotation point.",
          "Grid computed independently with libc.", "4/C15"),
- "C16": ("opx", "model_checking", "full level/threshold/filter product + preemption-bounded schedules of level/filter changes",
+ "C16": ("seqx+opx", "model_checking", "exhaustive level/threshold/filter/override product and slot-reuse walk (in process) + preemption-bounded schedule enumeration of level/filter changes",
          "Complete product of statement level x logger level x sink threshold x filter set, plus interleavings with changes; written iff passes.",
          "As C03.", "4/C16"),
- "C17": ("opx", "model_checking", "preemption-bounded exhaustive schedule enumeration of log/remove/create/get with backend points under ASan",
+ "C17": ("opx", "model_checking", "preemption-bounded exhaustive schedule enumeration of log/remove/re-create/get with backend points (AddressSanitizer build at the lower bound, plain build with live asserts at the higher)",
          "All schedules within the bound; nothing lost, nothing freed in use (ASan), sinks destroyed exactly when unreferenced.",
          "As C03; ASan build.", "4/C17"),
- "C18": ("seqx+opx", "model_checking", "explicit-state BFS to fixpoint on the real BacktraceStorage + exhaustive end-to-end histories",
+ "C18": ("seqx", "model_checking", "explicit-state BFS to fixpoint on the real BacktraceStorage + exhaustive end-to-end histories through the real macros and backend",
          "Ring-level BFS to fixpoint for capacities 0..N plus every end-to-end history of backtrace/log/flush/init ops up to the depth bound against a reference deque.",
          "Ids opaque to the ring (exact canonicalisation).", "4/C18"),
  "C19": ("seqx", "model_checking", "exhaustive enumeration of template token sequences x first-use orders x values against an independent fmt-grammar scanner",
